@@ -74,7 +74,9 @@ def id_typestate(prog, rep, fi, loop):
     ej = json_keys(prog, "EventModel")
     src_has_id = ej is not None and "id" in ej and norm(ej["id"]) == "self.id"
     ge = prog.func("PeeweeStorage.get_events")
-    src_has_id = src_has_id and "EventModel.json" in norm(ge.node) and "Event(**" in norm(ge.node)
+    from ..rules_codec import rebuilds_through_json
+
+    src_has_id = src_has_id and rebuilds_through_json(ge)
     # sink fact: insert_many's id-bearing partition reaches replace only, and replace has no INSERT
     im = prog.func("SqliteStorage.insert_many")
     has_part = False
@@ -281,18 +283,43 @@ def trigger(prog, rep):
     c = calls[0]
     rep.check(len(c.args) == 1 and norm(c.args[0]) == "self", "TRIGGER", init.short, "argument", "check_for_migration(self)", f"called with `{norm(c)}`", init.loc(c))
     node = g.node_of(c)
-    # path condition: new_db_file true and ignore false
-    nd = single_def(init, "new_db_file")
-    ig = single_def(init, "ignore_migration_check")
-    ok_defs = nd is not None and norm(nd) == "not os.path.exists(filepath)" and ig is not None and norm(ig) == "filepath is not None"
-    rep.check(ok_defs, "TRIGGER", init.short, "condition definitions", "new_db_file = not os.path.exists(filepath); ignore = filepath is not None", f"new_db_file := {norm(nd) if nd is not None else '?'}, ignore_migration_check := {norm(ig) if ig is not None else '?'}", init.loc())
+    # path condition: the database file is new and no custom path was given
+    fp = init.params[init.params.index("filepath")] if "filepath" in init.params else "filepath"
+    reassigned = [n.lineno for n in walk_own(init.node) if isinstance(n, ast.Assign) and any(norm(t) == fp for t in n.targets)]
+    first_re = min(reassigned) if reassigned else 10**9
 
-    def need(lab, name, pol):
-        return bool(lab) and lab[0] == "cond" and norm(lab[1]) == name and lab[2] is pol
+    def facts(e, pol, at_line, depth=0):
+        """what the test e (taken with polarity pol) says: {'new': bool} / {'custom': bool} / {}"""
+        if depth > 4:
+            return {}
+        if isinstance(e, ast.UnaryOp) and isinstance(e.op, ast.Not):
+            return facts(e.operand, not pol, at_line, depth + 1)
+        if isinstance(e, ast.Name):
+            defs = [n for n in walk_own(init.node) if isinstance(n, ast.Assign) and len(n.targets) == 1 and norm(n.targets[0]) == e.id]
+            if len(defs) == 1:
+                return facts(defs[0].value, pol, defs[0].lineno, depth + 1)
+            if e.id == fp and at_line < first_re:
+                return {"custom": pol}
+            return {}
+        t = norm(e)
+        if t in (f"os.path.exists({fp})", f"os.path.isfile({fp})"):
+            # the existence test must look at the final path (after the default was filled in)
+            return {"new": not pol} if (at_line > first_re or not reassigned) else {}
+        if at_line < first_re:
+            if t in (f"{fp} is not None", f"{fp} != None"):
+                return {"custom": pol}
+            if t in (f"{fp} is None", f"{fp} == None"):
+                return {"custom": not pol}
+        return {}
 
-    r1 = g.reach_filtered(g.entry, lambda u, v, lab: not need(lab, "new_db_file", True))
-    r2 = g.reach_filtered(g.entry, lambda u, v, lab: not need(lab, "ignore_migration_check", False))
-    rep.check(node not in r1 and node not in r2, "TRIGGER", init.short, "path condition", "only when the file is new and no custom path was given", "the migration is attempted for existing databases or custom paths (or never)", init.loc(c))
+    def lab_facts(lab):
+        if not lab or lab[0] != "cond":
+            return {}
+        return facts(lab[1], lab[2], getattr(lab[1], "lineno", 0))
+
+    r1 = g.reach_filtered(g.entry, lambda u, v, lab: lab_facts(lab).get("new") is not True)
+    r2 = g.reach_filtered(g.entry, lambda u, v, lab: lab_facts(lab).get("custom") is not False)
+    rep.check(node not in r1 and node not in r2, "TRIGGER", init.short, "path condition", "only when the file is new and no custom path was given", "the migration is attempted for existing databases or custom paths (or never): the call is not guarded by both `the file did not exist before connect()` and `no filepath argument was given` (each either tested directly or through a flag computed before `filepath` is re-bound)", init.loc(c))
     # reachable at all under those literals: the call is reachable from entry
     rep.check(node in g.reach_from(g.entry), "TRIGGER", init.short, "reachable", "", "the migration call is unreachable", init.loc(c))
     # the ordering: new_db_file computed before connect; creates + commit before the call
